@@ -43,8 +43,12 @@ def kl(a):
     return key(a)
 
 
+LIGHT = [False]     # C19 runs every family twice (two index widths): a lighter shape set keeps the quick tier quick
+
+
 def shapes_for(tier, rng, quick_alpha=(0, 1, 3), maxrows=4):
     alpha, mr = ((0, 1, 2, 4), 5) if tier == "thorough" else (quick_alpha, maxrows)
+    if LIGHT[0]: mr = min(mr, 3) if tier != "thorough" else 4
     sh = [list(ls) for k in range(0, mr + 1) for ls in itertools.product(alpha, repeat=k)]
     for _ in range(60 if tier == "thorough" else 12):
         sh.append([rng.choice([0, 0, 1, 2, 5, 9, 30]) for _ in range(rng.randint(1, 12))])
@@ -79,6 +83,14 @@ def RA(rows, dtype):
     if k == 2: return RaggedArray([list(r) + [junk] for r in rows], dtype=dtype)[:, :-1]
     if k == 3: return RaggedArray([[junk] + list(r) for r in rows], dtype=dtype)[:, 1:]
     return RaggedArray(rows + [[junk]], dtype=dtype)[list(range(n))]
+
+
+def view_of(rows, dtype, k):
+    """an array equal to RaggedArray(rows, dtype) obtained as a lazy view (variant k)"""
+    old = VARIANT[0], _rot[0]
+    VARIANT[0] = "view"; _rot[0] = k - 1
+    try: return RA(rows, dtype)
+    finally: VARIANT[0], _rot[0] = old
 
 
 def both_variants(f):
@@ -455,6 +467,19 @@ def run_c09(R, tier, rng):
     sh = [ls for ls in sh if max(ls) > 0]
     dts = ["bool", "int8", "int32", "int64", "uint8", "uint64", "float32", "float64"]
     BIG = dict(SMALL); BIG["int64"] = [2 ** 53 + 1, 1, 1, -(2 ** 62), 2 ** 60 + 1, 3]; BIG["uint64"] = [2 ** 64 - 1, 1, 2 ** 53 + 1, 2, 2 ** 63]
+    # float columns holding one large and many small addends: the exact sum is representable, a narrow accumulator loses the small ones
+    import math
+    for dt, big in (("float32", 2.0 ** 24),):      # float64 is itself the accumulator: nothing wider to compare with
+        for nsmall in (50, 200):
+            X = [[big, 2.0]] + [[2.0, 2.0, 2.0][:1 + (i % 3)] for i in range(nsmall)] + [[]]
+            m_ = 3
+            X = [[big, 2.0]] + [[1.0, 2.0, 2.0][:1 + (i % 3)] for i in range(nsmall)] + [[]]
+            exact = [math.fsum(r[j] for r in X if len(r) > j) for j in range(m_)]
+            cnt = [sum(1 for r in X if len(r) > j) for j in range(m_)]
+            C.cmp(f"sum(axis=0) {dt}/big+small n={nsmall}", "colsum-precision", True, lambda: [key(float(x)) for x in RA(X, dt).sum(axis=0)], lambda: [key(x) for x in exact],
+                  py=f"RaggedArray([[{big}, 2.0]] + {nsmall} rows starting with 1.0, dtype='{dt}').sum(axis=0)")
+            C.cmp(f"mean(axis=0) {dt}/big+small n={nsmall}", "colmean-precision", True, lambda: [key(float(np.dtype(dt).type(x))) for x in RA(X, dt).mean(axis=0)],
+                  lambda: [key(float(np.dtype(dt).type(e / c))) for e, c in zip(exact, cnt)], py=f"RaggedArray([[{big}, 2.0]] + {nsmall} rows of 2.0s, dtype='{dt}').mean(axis=0)")
     for si, ls in enumerate(sh):
         n = len(ls); nt = n >= 2
         m = max(ls)
